@@ -21,6 +21,9 @@ PIECES = {
     "ATS": "@attrs.define\nclass ATS(AT):\n    pass\n",
     "PMS": "class PMS(PM):\n    pass\n",
     "NTS": "class NTS(NT):\n    pass\n",
+    # classes defined inside another class: the generated constructor / member name has to be the qualified name
+    "Geo": ("from dataclasses import dataclass, field\nfrom enum import Enum\nimport typing\nclass Geo:\n    @dataclass\n    class Point:\n        x: int\n        y: int = 0\n"
+            "    class Kind(Enum):\n        A = 1\n    class NT2(typing.NamedTuple):\n        a: int\n        b: int = 0\n"),
     "AT": "import attrs\n@attrs.define\nclass AT:\n    a: object\n    b: int = 5\n    c: list = attrs.Factory(list)\n",
     "PM": "import pydantic\nclass PM(pydantic.BaseModel):\n    a: object\n    b: int = 7\n",
     "NT": "from collections import namedtuple\nNT = namedtuple('NT', 'a,b')\n",
@@ -86,6 +89,8 @@ A_FULL = (
     + [V("Color.RED", "enum", True, None), V("Perm.R", "flag", True, None),
        V("Perm.R | Perm.W", "flag", True, None), V("Perm(0)", "flag", True, None)]
     + [V("int", "type", True, None), V("K", "type", True, None), V("Outer.Inner", "type", True, None)]
+    + [V("Geo.Point(x=1)", "dc", False, None), V("Geo.Point(x=1, y=2)", "dc", False, None), V("Geo.Kind.A", "enum", True, None),
+       V("Geo.NT2(a=1)", "nt", True, None), V("Geo.NT2(a=1, b=2)", "nt", True, None), V("Geo.Point", "type", True, None)]
     + [V("DC(x=1)", "dc", False, None), V("DC(x=1, y=2)", "dc", False, None), V("DC(x=1, z=[1])", "dc", False, None),
        V("DC(x=[1, 'a'], y=0)", "dc", False, None), V("DCH(x=1)", "dc", False, None)]
     + [V("AT(a=1)", "attrs", False, None), V("AT(a=1, b=2, c=[3])", "attrs", False, None), V("AT(a=1, b=5)", "attrs", False, None)]
